@@ -26,6 +26,10 @@ RULE = (
     'original continues, the rest of the script applied to the copy must '
     'give the same log and state, and a DIFFERENT continuation played on a '
     'second copy must equal a fresh replay of prefix + that continuation. '
+    '(d) every record is compared, at the hook, with the change of the '
+    'public state it reports (amounts vs stack/bet/pot deltas, collected '
+    'bets vs bets minus refunds, pushed amounts incl. odd chips, cards and '
+    'facings vs the piles, shown cards vs cards now face up). '
     'Non-trivial = a hand with >= 8 operations and a copy point strictly '
     'inside it; distinct by (game, players, automations, mode, boards, '
     'operation-kind sequence, copy point).')
@@ -44,6 +48,7 @@ REQUIRED = ('log_replays', 'double_runs', 'copies_taken',
             'copies_in_phase:push', 'copies_in_phase:kill',
             'copies_in_phase:showdown', 'copies_in_phase:pull',
             'copies_in_phase:bet', 'copies_in_phase:deal',
+            'records_compared_with_state_delta', 'odd_chip_push_records',
             'observer_query_points')
 
 CUSTOMS = ('kuhn', 'draw5', 'stud5', 'greek', 'courchevel', 'holdem8',
@@ -225,6 +230,136 @@ class CopyMonitor(Monitor):
             ctx.counters['post_hand_shows_logged'] += 0
 
 
+class RecordMonitor(Monitor):
+    """"Complete and exact": every record must state what the operation did.
+    The public state just before the operation (shadow copy) and just after
+    it (at the hook) give the deltas the record is compared with."""
+
+    def _snap(self, s):
+        return {
+            'stacks': list(s.stacks), 'bets': list(s.bets),
+            'statuses': list(s.statuses),
+            'hole': [list(h) for h in s.hole_cards],
+            'up': [list(h) for h in s.hole_card_statuses],
+            'board': [list(b) for b in s.board_cards],
+            'burn': list(s.burn_cards),
+            'pot': sum(p.raked_amount + p.unraked_amount for p in s.pots),
+            'unraked': sum(p.unraked_amount for p in s.pots),
+        }
+
+    def on_created(self, ctx, s):
+        self.prev = self._snap(s)
+
+    def on_begin(self, ctx):
+        self.prev = None
+
+    def on_op(self, ctx, s, op):
+        cur = self._snap(s)
+        prev, self.prev = self.prev, cur
+        if prev is None:
+            # operations fired inside the constructor: compare with the
+            # previous hook event only (first one has no shadow)
+            return
+        k = type(op).__name__
+        n = s.player_count
+        ctx.counters['records_compared_with_state_delta'] += 1
+        bad = None
+        i = getattr(op, 'player_index', None)
+
+        def moved(j):      # chips that left player j's stack
+            return prev['stacks'][j] - cur['stacks'][j]
+        if k in ('AntePosting', 'BlindOrStraddlePosting', 'BringInPosting',
+                 'CheckingOrCalling'):
+            if moved(i) != op.amount or \
+                    cur['bets'][i] - prev['bets'][i] != op.amount:
+                bad = (f'amount {op.amount}, but the stack went down by '
+                       f'{moved(i)} and the bet up by '
+                       f'{cur["bets"][i] - prev["bets"][i]}')
+        elif k == 'CompletionBettingOrRaisingTo':
+            if cur['bets'][i] != op.amount or \
+                    moved(i) != op.amount - prev['bets'][i]:
+                bad = (f'raise to {op.amount}, but the bet is now '
+                       f'{cur["bets"][i]} and the stack went down by '
+                       f'{moved(i)}')
+        elif k == 'BetCollection':
+            into_pot = cur['pot'] - prev['pot']
+            exp = [prev['bets'][j] + moved(j) - cur['bets'][j]
+                   for j in range(n)]
+            # (moved(j) is minus the refund of an uncalled bet; a lone
+            # survivor's own bet stays in front of him and is pulled later)
+            if list(op.bets) != exp or sum(op.bets) != into_pot:
+                bad = (f'bets {op.bets}, but the bets before were '
+                       f'{prev["bets"]}, refunds '
+                       f'{[-moved(j) for j in range(n)]} and the pots grew '
+                       f'by {into_pot}')
+        elif k == 'ChipsPushing':
+            exp = [cur['bets'][j] - prev['bets'][j] for j in range(n)]
+            out = prev['unraked'] - cur['unraked']
+            if list(op.amounts) != exp or sum(op.amounts) != out:
+                bad = (f'amounts {op.amounts}, but the chips in front of the '
+                       f'players changed by {exp} and the pots went down by '
+                       f'{out}')
+            if sum(1 for a in op.amounts if a) > 1 and \
+                    len({a for a in op.amounts if a}) > 1:
+                ctx.counters['odd_chip_push_records'] += 1
+        elif k == 'ChipsPulling':
+            if -moved(i) != op.amount or prev['bets'][i] != op.amount \
+                    or cur['bets'][i]:
+                bad = (f'amount {op.amount}, but the stack went up by '
+                       f'{-moved(i)} from a bet of {prev["bets"][i]}')
+        elif k == 'HoleDealing':
+            m = len(op.cards)
+            if cur['hole'][i][:-m or None] != prev['hole'][i] or \
+                    tuple(cur['hole'][i][len(prev['hole'][i]):]) != \
+                    tuple(op.cards) or tuple(
+                        cur['up'][i][len(prev['up'][i]):]) != \
+                    tuple(op.statuses):
+                bad = (f'cards {op.cards} statuses {op.statuses}, but the '
+                       f'hand went from {prev["hole"][i]} to '
+                       f'{cur["hole"][i]} (facings {cur["up"][i]})')
+        elif k == 'BoardDealing':
+            new = [c for b0, b1 in zip(prev['board'], cur['board'])
+                   for c in b1[len(b0):]]
+            new += [c for b1 in cur['board'][len(prev['board']):]
+                    for c in b1]
+            if sorted(map(repr, new)) != sorted(map(repr, op.cards)):
+                bad = (f'cards {op.cards}, but the boards gained {new}')
+        elif k == 'CardBurning':
+            if cur['burn'][len(prev['burn']):] != [op.card] and not (
+                    len(cur['burn']) <= len(prev['burn'])):
+                bad = (f'card {op.card}, but the burn pile gained '
+                       f'{cur["burn"][len(prev["burn"]):]}')
+        elif k == 'StandingPatOrDiscarding':
+            gone = list(prev['hole'][i])
+            for c in cur['hole'][i]:
+                if c in gone:
+                    gone.remove(c)
+            if sorted(map(repr, gone)) != sorted(map(repr, op.cards)):
+                bad = (f'cards {op.cards}, but the hand lost {gone}')
+        elif k in ('Folding', 'HandKilling'):
+            if not prev['statuses'][i] or cur['statuses'][i]:
+                bad = 'the player\'s status did not go from live to out'
+        elif k == 'HoleCardsShowingOrMucking':
+            if not op.hole_cards:
+                if s.street_index is not None and cur['statuses'][i]:
+                    bad = 'a muck is recorded but the player is still in'
+            else:
+                up_now = [c for c, u in zip(cur['hole'][i], cur['up'][i])
+                          if u]
+                newly = [c for (c, u), u0 in zip(
+                    zip(cur['hole'][i], cur['up'][i]),
+                    prev['up'][i] + [False] * n) if u and not u0]
+                hidden = [c for c in op.hole_cards if c and c not in up_now]
+                missing = [c for c in newly if c not in op.hole_cards]
+                if hidden or missing:
+                    bad = (f'cards {op.hole_cards}, but face up now are '
+                           f'{up_now} (newly turned {newly})')
+        if bad:
+            ctx.violate(f'record #{ctx.nevents} {k}'
+                        f'{"" if i is None else " of player " + str(i)} '
+                        f'says {bad}')
+
+
 class PostShow(Monitor):
     """After the hand: winners may show voluntarily; that must be logged."""
 
@@ -247,7 +382,7 @@ class PostShow(Monitor):
 
 
 def make_monitors():
-    return [driver.Observer(), PostShow(), CopyMonitor()]
+    return [driver.Observer(), PostShow(), RecordMonitor(), CopyMonitor()]
 
 
 def gen_kwargs(rng):
